@@ -76,6 +76,15 @@ impl StateMachine<'_> {
         Ok(handled_line)
     }
 
+    /// The input ended inside a merge conflict (no `++>>>>>>>` line was seen): paint the lines
+    /// which were stored so far, instead of dropping them.
+    pub fn handle_unterminated_merge_conflict(&mut self) -> std::io::Result<()> {
+        if let State::MergeConflict(merge_parents, _) = self.state.clone() {
+            self.paint_buffered_merge_conflict_lines(&merge_parents)?;
+        }
+        Ok(())
+    }
+
     fn enter_merge_conflict(&mut self, merge_parents: &MergeParents) -> bool {
         use State::*;
         if let Some(commit) = parse_merge_marker(&self.line, "++<<<<<<<") {
